@@ -183,7 +183,7 @@ def check(ctx):
              [a_ for a_ in gsa.atoms(e.cond) if not a_.startswith('@') and not re.match(LEFT, a_) and not re.match(r'^%s$' % re.escape(G.P(0)), a_)] == [] for e in raises)
     r3.check(ok, 'raise SystemExit when requests remain', rel, g.lineno,
              'there is no `raise SystemExit` reached exactly when some requested library is still unresolved (%s non-empty): %s' % (pname, [e.when()[:120] for e in raises]))
-    msg_ok = any(('%s.keys()' % pname) in e.value or ('join(%s)' % pname) in e.value for e in raises)
+    msg_ok = any(re.search(r'join\((list\()?%s(\.keys\(\))?\)?\)' % re.escape(pname), e.value) or ('%s.keys()' % pname) in e.value for e in raises)
     r3.check(msg_ok, 'error names the unresolved libraries', rel, g.lineno, 'the SystemExit message does not list the unresolved names')
     for ret in [e for e in G.effects if e.kind == 'return' and e.fn == 'resolve_from_ldd_output']:
         early = ret.seq < ps.seq
